@@ -87,6 +87,20 @@ CHECKS = [
               'BeartypeConfParamException iff the documented validity predicate fails, independently of earlier creations, and nothing '
               'else escapes; typed-equal kwargs in any order give the identical object, differing ones unequal objects, hash agrees with '
               '==, options read back, BeartypeConf(**conf.kwargs) is conf.'),
+    dict(id='C19', engine='G', cat='translation_validation', ref='4/C19',
+         technique='SMT (z3): for every pair the real is_subhint answers True, unsat of [[A]](x) and not [[B]](x) over the object universe at full depth',
+         text='Soundness clause only (partial claim): the real is_subhint is evaluated on every ordered pair of an enumerated hint pool '
+              '(230 hints quick, ~500 thorough; Any excluded as the property says) and each True answer is discharged by the solver '
+              'over all objects of the universe (container length <= 3, full depth); a sat model is a concrete object fully satisfying A '
+              'and violating B, replayed with an independent deep walker and beartype itself. Reflexivity, transitivity and TypeHint '
+              'coherence are concrete side conditions reported in evidence, not solver coverage.'),
+    dict(id='C20', engine='G', cat='translation_validation', ref='4/C20',
+         technique='SMT (z3): for every enumerated object skeleton, unsat of shape(x) and not code_H(x,r) with H = real infer_hint(representative), all scalar payloads and draws symbolic',
+         text='Partial claim: object skeletons (class trees of depth <= 3, width <= 3 over ~45 universe classes incl. views, ranges, '
+              'user Sequence/Mapping/Set/Collection/iterables, class objects, enum members) are enumerated; for each the real infer_hint '
+              'runs on a representative, the checker code beartype generates for the inferred hint is translated, and the solver '
+              'shows that every object of that shape is accepted for every draw and payload and satisfies the inferred hint at full '
+              'depth. The recursion-warning clause is not claimed.'),
     dict(id='C09', engine='G', cat='translation_validation', ref='4/C09',
          technique='SMT (z3) cost term over item-reading AST nodes with unbounded symbolic container length',
          text='Fast path: the translator attaches a cost to every item read (x[i], next(iter(x)), mapping lookups; len for '
@@ -110,8 +124,6 @@ PENDING = [
     ('C07', 'planned (Engine G, partial); not yet built in this commit'),
     ('C13', 'planned (Engine G, partial); not yet built in this commit'),
     ('C14', 'planned (Engine G, partial); not yet built in this commit'),
-    ('C19', 'planned (Engine G, partial); not yet built in this commit'),
-    ('C20', 'planned (Engine G, partial); not yet built in this commit'),
 ]
 
 
